@@ -65,7 +65,7 @@ class Prop:
             "len+1,-len-1, each child, a foreign node}, colliding data/ids, the four shortcuts, add(node) x deep, copy_to x add_self x deep, move of "
             "every node to every parent (inside and outside its own branch) x every before, remove x keep_children x with_clones, remove_children, "
             "clear, del by data/data_id/node_id, set_data over data x data_id x with_clones, rename; thorough adds sort, Node.copy, Tree.copy, all "
-            "6^n filter verdict tables n<=3, typed trees <= 3 nodes, deeper extra shapes); (b') 'twins': forests whose siblings hold equal-comparing but distinct data objects under distinct explicit ids, each with a subtree, x every removal route with arguments that treat the twins differently (in-place filter with every mixed verdict table over the twins, remove x keep_children x with_clones, del, remove_children, move of a twin everywhere, sort with keys that reorder / tie the twins); (b'') cross-tree moves: every node of one tree to every NODE and to the Tree object of another tree x before; (c) seeded random histories of <= 30 (thorough 40) "
+            "6^n filter verdict tables n<=3, typed trees <= 3 nodes, deeper extra shapes); (b') 'twins': forests whose siblings hold equal-comparing but distinct data objects under distinct explicit ids, each with a subtree, x every removal route with arguments that treat the twins differently (in-place filter with every mixed verdict table over the twins, remove x keep_children x with_clones, del, remove_children, move of a twin everywhere, sort with keys that reorder / tie the twins); (b'') cross-tree moves: every node of one tree to every NODE and to the Tree object of another tree x before; (b''') move chains: every forest with 3 (thorough 4) nodes, every first move that takes a node with children deeper, then every move incl. own-branch targets; read-only queries (depth, calc_height, is_descendant_of, siblings, find, format, iteration, to_dict_list) run on every tree after EVERY step of every case; (c) seeded random histories of <= 30 (thorough 40) "
             "operations over 1-3 trees (plain/typed, calc_data_id callbacks): 45% of the steps are aimed (forced clone pairs, clones nested below "
             "a clone, equal-but-distinct data under different explicit ids as siblings, moves into the own branch / to parent, grandparent, sibling, "
             "nephew, root, remove with_clones / keep_children / both on nodes that have clones / children, remove_children of deep branches, "
@@ -133,6 +133,9 @@ class Prop:
         for g in mut_c01.gen_twins(quick):
             for i in range(0, len(g["alts"]), CHUNK):
                 yield dict(kind="alts", univ=g["univ"], setup=g["setup"], alts=g["alts"][i:i + CHUNK], label=g["label"])
+        for g in mut_c01.gen_move_chains(3 if quick else 4):
+            for i in range(0, len(g["alts"]), CHUNK):
+                yield dict(kind="alts", univ=g["univ"], setup=g["setup"], alts=g["alts"][i:i + CHUNK], label=g["label"])
         for g in mut_c01.gen_cross_move(typed=(False,) if quick else (False, True), quick=quick):
             for i in range(0, len(g["alts"]), CHUNK):
                 yield dict(kind="alts", univ=g["univ"], setup=g["setup"], alts=g["alts"][i:i + CHUNK], label=g["label"])
@@ -154,7 +157,7 @@ class Prop:
             for alt in desc["alts"]:
                 yield dict(kind="hist", univ=desc["univ"], ops=desc["setup"] + [alt])
             return
-        for h in mut.shrink_candidates(dict(univ=desc["univ"], ops=desc["ops"])):
+        for h in mut_ex.safe_shrink_candidates(dict(univ=desc["univ"], ops=desc["ops"])):
             yield dict(kind="hist", univ=h["univ"], ops=h["ops"])
 
     ORACLES = ("wf",)
@@ -206,3 +209,8 @@ CORPUS_C01: list = []
 
 PROP = Prop()
 CORPUS = mut.CORPUS + CORPUS_C01
+
+import parts  # noqa: E402
+import parts_misc  # noqa: E402
+
+parts.attach(PROP, parts_misc.REMOVED, parts_misc.SELFCHECK)   # removed nodes are inert; Tree._self_check (models Forest/MiscRemoved.v, Mut/MiscSelfCheck.v; theorems at the end of Properties/C01.v)
